@@ -159,6 +159,7 @@ func run(p *pool, cfg *lib.Config, res *lib.Result, rng *lib.Rng, only map[strin
 	res.CorrFiles = append(res.CorrFiles, caches)
 	res.CorrFiles = append(res.CorrFiles, ck.nameCases(cfg, nameOnly))
 	res.CorrFiles = append(res.CorrFiles, ck.uriCases(cfg))
+	res.CorrFiles = append(res.CorrFiles, ck.richCases(cfg))
 }
 
 func equalTexts(p *pool, ck *checker, i int) []string {
